@@ -12,7 +12,7 @@ Local Open Scope Z_scope.
 
 (* ======================= (a) closure under operation histories ======================= *)
 (* For every width 0 <= BITS < 2^64, every register file of canonical values and every program
-   (any length, any of the 85 opcodes, any immediates): the model's run is exactly the run of the
+   (any length, any of the 102 opcodes, any immediates): the model's run is exactly the run of the
    integer interpreter RunC04a.zrun written back as canonical limbs — every register of the
    result is canonical and denotes the integer the interpreter computed; a panic of the model is
    a panic of the interpreter. *)
@@ -56,9 +56,9 @@ Check C04_sem_ok : forall bits a b c imm,
             /\ PfC04a.zrange bits (RunC04a.zsem o bits (eval a) (eval b) (eval c) imm).
 Print Assumptions C04_sem_ok.
 
-(* the opcodes for which `sem` is still the specification function (their model belongs to C13);
-   all other opcodes run the models of the crate's code *)
-Example C04_opaque_ops : History.opaque_ops = [History.WrPow; History.Root].
+(* the only opcode for which `sem` is still the specification function (Model/Root.v needs the
+   floating-point estimate as an observed input); all other opcodes run the models of the crate's code *)
+Example C04_opaque_ops : History.opaque_ops = [History.Root].
 Proof. reflexivity. Qed.
 
 (* ======================= (b) equality, hashing, ordering ======================= *)
